@@ -116,6 +116,13 @@ def base_inputs(ctx, soup_n, trunc_n=0, lf_n=0, mb_n=0, case_n=0, corpus_trunc=0
         if " " in s_:
             uw.append("".join(rng.choice(UNI_WS) if ch == " " and rng.random() < 0.5 else ch for ch in s_))
     ctx.add_cases("common:unicode_ws", uw)
+    # byte-order marks beyond the single leading one: a second leading BOM and BOMs inside the text are ordinary characters
+    bm = ["\ufeff\ufeff", "\ufeff\ufeff\ufeff", "\ufeff", "\ufeff\n\ufeff", "a\ufeff", "\ufeff \ufeff;"]
+    for s_ in rng.sample(pool, min(len(pool), cn // 4)):
+        k_ = rng.randint(0, len(s_))
+        bm.append("\ufeff\ufeff" + s_)
+        bm.append("\ufeff" + s_[:k_] + "\ufeff" + s_[k_:])
+    ctx.add_cases("common:bom", bm)
     if not mb_n:
         ctx.add_cases("common:mb", [gen.multibyte_inject(s, rng) for s in rng.sample(pool, min(len(pool), cn))])
     if not lf_n:
